@@ -16,6 +16,7 @@ From TS Require Import model.Base model.Flatten proofs.FlattenProofs gen.Flatten
 From TS Require Import model.Chunk model.Batch proofs.ChunkProofs proofs.BatchProofs.
 From TS Require Import gen.PartitionGen model.Partition proofs.PartitionProofs.
 From TS Require Import model.StoragePath proofs.StoragePathProofs.
+From TS Require Import model.Dispatch gen.DispatchGen model.DispatchGenObs proofs.DispatchInst.
 From Coq Require Import Permutation.
 
 (* ------------------------------------------------------------------ confined *)
@@ -244,3 +245,29 @@ Example C05_ex_layout :
   obs_overlaps (layout_refs items slabs) = VL []
   /\ obs_overlaps (layout_refs (items ++ [mkLoc false false 0 [[109]; [119; 95; 48]] None]) slabs) = VL [VL [VZ 0; VZ 3]].
 Proof. vm_compute. split; reflexivity. Qed.
+
+(* ------------------------------------------------------------------ the location strings, as the source builds them now *)
+(* gen/DispatchGen.v is regenerated on every run by translator/gen_dispatch.py from get_storage_path (io_preparer.py), the
+   piece suffixes of ChunkedTensorIOPreparer / ShardedTensorIOPreparer.prepare_write, Slab.location (batcher.py) and the
+   key of the global manifest (Snapshot._gather_manifest).  They are the functions the theorems above are about. *)
+Theorem C05_generated_locations_are_model :
+  (forall a : litem, g_location_of a = location_of a) /\
+  (forall u, g_slab_location u = slab_location u) /\
+  (forall r lp, g_manifest_path r lp = manifest_path r lp) /\
+  (forall st dt sp, g_is_sharded st dt sp = (st || (dt && sp))).
+Proof.
+  split; [exact g_location_of_eq|]. split; [exact g_slab_location_eq|]. split; [exact g_manifest_path_eq | exact g_is_sharded_spec].
+Qed.
+Print Assumptions C05_generated_locations_are_model.
+
+(* ... hence distinct objects get distinct files under the generated location function *)
+Theorem C05_generated_location_injective : forall a b : litem,
+  wf_path (li_path a) -> wf_path (li_path b) -> relative (li_path a) -> relative (li_path b) ->
+  no_empty_component (li_path a) -> no_empty_component (li_path b) ->
+  no_suffix_clash (join (li_path a)) (join (li_path b)) -> no_suffix_clash (join (li_path b)) (join (li_path a)) ->
+  resolve_s (g_location_of a) = resolve_s (g_location_of b) -> same_object a b.
+Proof.
+  intros a b Wa Wb Ra Rb Ea Eb Sab Sba H. rewrite !g_location_of_eq in H.
+  exact (location_injective a b Wa Wb Ra Rb Ea Eb Sab Sba H).
+Qed.
+Print Assumptions C05_generated_location_injective.
